@@ -7,7 +7,7 @@ from harness import core, py2lean, instantiate
 from harness.core import Outcome, f2b, b2f
 
 ID = "C05"
-LEAN_TARGETS = ["BeyondVerif.Props.C05", "BeyondVerif.Lemmas.TwoBody"]
+LEAN_TARGETS = ["BeyondVerif.Props.C05", "BeyondVerif.Lemmas.TwoBody", "BeyondVerif.Lemmas.NewtonKepler"]
 THEOREMS = [
     "BeyondVerif.C05.meanMotion_formula",
     "BeyondVerif.C05.kepler_elements_constant",
@@ -27,6 +27,9 @@ THEOREMS = [
     "BeyondVerif.C05.m2e_loop_residual_elliptic",
     "BeyondVerif.C05.kpM2e_elliptic_spec",
     "BeyondVerif.C05.kepler_anomaly_residual",
+    "BeyondVerif.C05.loop_returns",
+    "BeyondVerif.C05.kpM2eLoop_neg",
+    "BeyondVerif.C05.kepler_m2e_terminates_partial",
     "BeyondVerif.C05.kepler_cart_compose",
     "BeyondVerif.C05.kepler_cart_inverse",
     "BeyondVerif.C05.kepler_cart_periodic",
@@ -48,7 +51,7 @@ LEVEL_TEXT = ("Lean theorems over R about the element update translated from kep
               "node rate = Earth's mean motion for the inclination returned by leo.sso), composes modulo 2 pi. Cartesian-level composition / inverse / "
               "periodicity are proved from the form round trip as explicit hypotheses (C01). The propagator object re-reads the orbit on every call (history independence); "
               "the Newton loop of Form.M2E (translated start values / update / tolerance, loop shape checked) is left on convergence only, so a returned anomaly solves Kepler's equation "
-              "for the advanced mean anomaly within 2e-8 (1+e) (partial correctness; termination fails: open finding). Differential correspondence of the whole chain (update, M2E, "
+              "for the advanced mean anomaly within 2e-8 (1+e); for the anomaly reduced to [-pi, pi) (as the code does since b41fd8b) with |M'| <= pi - e the loop provably exits (monotone Newton descent). Differential correspondence of the whole chain (update, M2E, "
               "eccentric -> true -> cartesian, all in Lean) against Orbit.propagate from every form, on single calls and on call histories with in-place modifications.")
 LEVEL_NOTE = ("R -> double gap covered only by tolerance-bounded correspondence; form conversions (C01) enter as hypotheses; that advancing M at rate n solves the "
               "two-body ODE is proved for bound orbits in the orbital plane only (hyperbolic case: oracle, independent universal-variable propagator); Lean kernel + propext/Classical.choice/Quot.sound; "
@@ -69,10 +72,10 @@ NOT_COVERED = ["two-body solution: proved for bound orbits in the orbital plane 
                "the hyperbolic counterpart, the constant rotation of the orbital plane into the frame, and that the library's mean -> cartesian conversion computes these coordinates (C01) are not formalised; "
                "agreement with the independent universal-variable solution (elliptic and hyperbolic, both time directions) is oracle only",
                "J2 on hyperbolic orbits: the code returns NaN silently (sqrt(1 - e^2)); secular J2 theory is defined for bound orbits only, the model reproduces the NaN, the theorems assume e < 1 where sqrt matters"]
-OPEN = ["termination of Form.M2E is FALSE of the current code for bound orbits several revolutions away (known finding C05-m2e-no-return-ell, proposed_fixes/C05-m2e-no-return-ell.diff): "
-        "kepler_anomaly_residual_partial carries the hypothesis 'the loop exited'; no kernel witness (the cycle is a property of the double-precision iteration; Float is opaque to the kernel) - "
-        "the compiled model runs out of fuel on exactly the inputs on which the code does not return (correspondence result=no-return)",
-        "hyperbolic M2E overflow (lead 18): fixed in /repo by 31f549a; the oracle family hyperbolic-M2E-overflow stays alive (reverting the fix gives a VIOLATION)"]
+OPEN = ["termination of Form.M2E (elliptic branch, code after fix b41fd8b) is proved over R for reduced mean anomalies |M'| <= pi - e (kepler_m2e_terminates_partial: monotone Newton descent, at most e/tol + 2 passes); "
+        "remaining gap: pi - e < |M'| <= pi (within e of apogee the start value M' +- e overshoots +-pi into the region of the other curvature; <= 11 passes on 1e6 sampled inputs, oracle m2e_case) "
+        "and the double-precision iteration itself (R -> double; covered by the 1 s watchdog families m2e-no-return-*, the pinned regression inputs and the fuel-bounded compiled model); hyperbolic branch: no termination theorem",
+        "known findings C05-hyperbolic-M2E-overflow (31f549a) and C05-m2e-no-return-ell (b41fd8b) are fixed in /repo; their oracle families stay alive (reversing either fix gives a VIOLATION with a replay)"]
 RULE = ("correspondence: random orbits (e log/uniform in [1e-4,0.95] and [1.01,10], perigee radius 6.6e6..5e7 m, every form the conic admits, dt in +-30 d quantised to ms) through "
         "Orbit.propagate (Kepler, J2) vs real mean->cartesian applied to the Lean model's elements on the real cartesian->mean elements; non-trivial = dt != 0; distinct = distinct request line. "
         "plus the Kepler inputs with the most Newton passes among 2e4 (2e5) domain candidates, plus call histories (propagate / modify in place: element, velocity scaling, form, date / propagate again, "
